@@ -16,7 +16,7 @@ func init() {
 		LevelText:   "Structural clauses decided for all paths: every start and stop position constant has a case whose offset comes from the documented source, unknown values are refused; every sentinel error the readers can return is mapped; an inverted range is refused before a reader exists; the loop sends a message before testing the stop condition; a loop that terminates by comparing the offset just read with a target uses an ordering, not equality (offsets are sparse after compaction); the reverse reader clamps its start to the high watermark; index slots are never derived from offsets. That the delivered set equals the requested range on every log shape is not decided.",
 		LevelNote:   "Trusted: go/ssa; the commit log's lookup functions (decided separately under C01).",
 		DesignRef:   "DESIGN.md §4 C10",
-		Explanation: "R10.1 position tables, R10.2 error→status table, R10.3 inverted range refused / send-before-stop, R01.5 + R03.5 (shared), R10.5 termination on sparse logs, R10.6 reverse start clamp. NOT decided: delivered set = requested range for every log shape; timestamp lookups next to gaps.",
+		Explanation: "R10.1 position tables, R10.2 error→status table, R10.3 inverted range refused / send-before-stop, R01.5 + R03.5 (shared), R10.5 termination on sparse logs, R10.6 reverse start clamp, R10.7 timestamp lookup falls through to the next segment whenever it exists. NOT decided: delivered set = requested range for every log shape; timestamp lookups on logs whose timestamps are not monotone.",
 	})
 }
 
@@ -169,8 +169,19 @@ func runC10(c *eng.Ctx) {
 			}
 		})
 		c.Check(len(sends) == 1, "message is sent in the loop", p.Pos(fn.Pos()), "one send of the message per iteration", "the subscribe loop does not send exactly once per iteration")
+		// nothing past the stop position is delivered: the send is reached only when the offset just read is within the
+		// requested range, the stop is waived, or the subscription runs in reverse (where the reader itself stops by ordering)
+		if len(sends) == 1 {
+			off := eng.Call(1, cl+"MessageReader.ReadMessage", cl+"Reader.ReadMessage")
+			stopV := freeVarNamed("stopOffset")
+			within := eng.CmpEdges(fn, off, stopV, eng.LE)
+			waived := eng.CmpEdges(fn, stopV, eng.IntConst(-1), eng.EQ)
+			rev := eng.BoolEdges(fn, freeVarNamed("reverse"), true)
+			g, w := eng.GuardedBy(fn, sends[0], append(append(append([]eng.Edge{}, within...), waived...), rev...))
+			c.Check(g && len(within) > 0, "no message past the stop offset is sent", c.Pos(sends[0]), "the send is reached only over offset <= stopOffset, stop waived, or reverse", "a message is handed to the subscriber before its offset has been compared with the stop offset (path "+w.String()+"): when the stop offset itself is no longer in the log (compaction, retention) the first retained message past it is delivered")
+		}
 	}
-	c.Floor(4)
+	c.Floor(5)
 
 	// ---- shared
 	c.Rule("R01.5", "K5")
@@ -183,6 +194,32 @@ func runC10(c *eng.Ctx) {
 	c.Rule("R01.9", "K5")
 	ruleReaderSegment(c)
 	c.Floor(6)
+
+	// ---- R10.7 timestamp positions: the lookup falls through to the following segment whenever there is one
+	c.Rule("R10.7", "K1")
+	if fn := c.Fn(cl + "(*commitLog).EarliestOffsetAfterTimestamp"); fn != nil {
+		segF := p.Field(clPkg, "commitLog", "segments")
+		idx := eng.Call(0, cl+"findSegmentIndexByTimestamp")
+		full := eng.CmpRels(fn, idx, eng.Len(eng.Load(segF, nil)))
+		short := eng.CmpRels(fn, idx, eng.Bin(token.SUB, eng.Len(eng.Load(segF, nil)), eng.IntConst(1)))
+		ok := len(short) == 0 && len(full) >= 1
+		for _, r := range full {
+			if r != eng.LT && r != eng.GE {
+				ok = false
+			}
+		}
+		// segments[idx] is read only when it exists
+		exists := eng.CmpEdges(fn, idx, eng.Len(eng.Load(segF, nil)), eng.LT)
+		eng.Instrs(fn, func(in ssa.Instruction) {
+			if ia, isIA := in.(*ssa.IndexAddr); isIA && eng.Load(segF, nil)(ia.X) && idx(ia.Index) {
+				if g, _ := eng.GuardedBy(fn, in, exists); !g {
+					ok = false
+				}
+			}
+		})
+		c.Check(ok, "the segment after the searched one is consulted whenever it exists", p.Pos(fn.Pos()), "fall through to l.segments[idx] exactly when idx < len(l.segments)", "when the segment before idx has no entry at or after the timestamp, EarliestOffsetAfterTimestamp consults l.segments[idx] only under a test other than idx < len(l.segments): for a timestamp between the last entry of the second-to-last segment and the first entry of the last one it answers the next assignable offset, and a subscription starting at that timestamp skips the whole last segment")
+	}
+	c.Floor(1)
 
 	// ---- R10.5 termination on sparse logs
 	c.Rule("R10.5", "K1")
